@@ -2,14 +2,16 @@
 from gateprops import run_gate_check, oracle_c01
 
 PROP = "C01"
-LEAN_FILES = ["QibProofs/Properties/C01.lean", "QibProofs/Properties/C01Tree.lean"]
-GEN = ("gates", "pauli")
+# the coupled-cluster ansatz (qUCC.as_matrix) is proved unitary in the files of C20 (C20_qucc_unitary*, C20_ansatz_unitary_conserves_N):
+# obligations of this check as well
+LEAN_FILES = ["QibProofs/Properties/C01.lean", "QibProofs/Properties/C01Tree.lean", "QibProofs/Properties/C20.lean"]
+GEN = ("gates", "pauli", "vqe")
 DRIVER = "drv_gate"
 LEVEL_TEXT = ("Lean 4 theorems over (a) the leaf closed forms regenerated from gates.py by the translator and (b) combinators for "
               "controlled / multiplexed / time-evolution / block-encoding / preparation gates over arbitrary index types, lifted to every "
               "gate tree by structural induction; composite assembly (kron/diag/block_diag/np.block, inverse(), is_hermitian delegation) "
               "is tied to the code by exact differential execution of the Lean model on the same gate trees; the same statements are ALSO proved directly about the executable gate-tree model that the driver runs (Tree.mat / inverse / herm over exact Gaussian rationals, structural induction over Tree.WF, files C..Tree.lean)."
-              " Pauli strings and weighted strings: is_unitary() claims are exact (every string matrix is unitary; a weighted string iff |weight| = 1), tied by differential execution.")
+              " Pauli strings and weighted strings: is_unitary() claims are exact (every string matrix is unitary; a weighted string iff |weight| = 1), tied by differential execution. qUCC ansatz: exp of the skew-adjoint generator T - T^H is unitary (theorems of C20, obligations here too), generator compared exactly with the implementation's encoded cluster operator.")
 ASSUMPTIONS = ["scipy.linalg.expm is modelled by NormedSpace.exp, sqrtm(1-H^2) by any Hermitian square root commuting with H, "
                "np.linalg.qr by any real orthogonal completion with first column +-x/|x| (each assumption is checked numerically on every sampled call)",
                "IEEE rounding/overflow is not modelled: theorems are over R/C, the numeric tie uses tolerance 1e-9 and |theta| <= 1e12; scipy.linalg.expm loses unitarity at the level eps*|t|*||H|| (6e-5 at 5e11), evolution times are sampled with |t| <= 1e4",
@@ -24,3 +26,5 @@ def run(rep, tier, rng, drv):
     import pauliflags
     run_gate_check(rep, drv, tier, rng, oracle_c01, ("mat", "wires"), "gate.all")
     pauliflags.run_pauli_flags(rep, tier, rng, "C01")
+    import flagstages
+    flagstages.run_qucc_unitary(rep, tier, rng)
